@@ -204,11 +204,11 @@ func rewriteFile(path, rel string) ([]byte, bool, error) {
 					key := id.Name + "." + se.Sel.Name
 					if pkgImported[id.Name] {
 						switch key {
-						case "context.WithTimeout", "context.WithDeadline", "time.Sleep", "time.After":
+						case "context.WithTimeout", "context.WithDeadline", "time.Sleep", "time.After", "time.NewTimer", "time.AfterFunc":
 							b.Fun = sel("vrt", se.Sel.Name)
 							rw.needVrt, rw.changed = true, true
 							rep.Rewrites[key]++
-						case "time.NewTimer", "time.AfterFunc", "time.NewTicker", "time.Tick", "context.AfterFunc":
+						case "time.NewTicker", "time.Tick", "context.AfterFunc":
 							rw.unmodelled(b.Pos(), key+" (real-time timer, not under the scheduler)")
 						}
 					}
